@@ -2,6 +2,7 @@ package harness
 
 import (
 	"fmt"
+	"os"
 	"reflect"
 	"sort"
 	"strings"
@@ -15,7 +16,9 @@ import (
 	"github.com/MichaelMure/git-bug/entities/identity"
 	"github.com/MichaelMure/git-bug/entity"
 	"github.com/MichaelMure/git-bug/query"
+	"github.com/MichaelMure/git-bug/repository"
 
+	"verif/harness/internal/entropy"
 	"verif/harness/internal/ondisk"
 	"verif/harness/internal/report"
 )
@@ -790,4 +793,99 @@ func FuzzQueryParse(f *testing.F) {
 			t.Fatalf("nil query without error")
 		}
 	})
+}
+
+// ---------------------------------------------------------------- full-text search over a cache built from git
+
+type c12BuildCase struct {
+	Seed uint64 `json:"seed"`
+	N    int    `json:"n"` // bugs present when the cache is built
+}
+
+func genC12Build(t *rapid.T) c12BuildCase {
+	return c12BuildCase{Seed: rapid.Uint64().Draw(t, "seed"),
+		N: rapid.OneOf(rapid.IntRange(1, 200), rapid.SampledFrom([]int{74, 75, 76, 77, 149, 150, 151, 152, 225, 226})).Draw(t, "n")}
+}
+
+// runC12Build: "evaluating a query returns exactly the bugs that satisfy it" for search terms, on a cache that
+// was built from the git data (first open of a clone, lost or outdated cache files) rather than filled bug by
+// bug: every bug carries a word of its own in its title, and a query for that word returns exactly that bug.
+func runC12Build(tb report.TB, rep *report.Reporter, c c12BuildCase) {
+	entropy.Seed(c.Seed)
+	defer entropy.Restore()
+	dir := mkdirTemp("c12b-")
+	defer os.RemoveAll(dir)
+	repo, err := repository.InitGoGitRepo(dir, "git-bug")
+	if err != nil {
+		tb.Fatalf("harness: %v", err)
+	}
+	id, _, _, err := ondisk.WriteIdentity(repo, "", []ondisk.IdentityVersion{{Version: 2, UnixTime: 1600000000, Name: "searcher", Nonce: NonceFor(c.Seed, 12_000_000)}})
+	if err != nil {
+		tb.Fatalf("harness: %v", err)
+	}
+	me, err := identity.ReadLocal(repo, entity.Id(id))
+	if err != nil {
+		tb.Fatalf("harness: %v", err)
+	}
+	if err := identity.SetUserIdentity(repo, me); err != nil {
+		tb.Fatalf("harness: %v", err)
+	}
+	want := map[string]string{} // token -> bug id
+	for k := 0; k < c.N; k++ {
+		tok := fmt.Sprintf("needle%dq%d", k, c.Seed%89)
+		create := bug.NewCreateOp(me, int64(1000+k), "about "+tok, "body", nil)
+		create.Nonce = NonceFor(c.Seed, 12_100_000+k)
+		b := bug.NewBug()
+		b.Append(create)
+		if k%3 == 0 {
+			if _, err := bug.Close(b, me, int64(2000+k), nil); err != nil {
+				tb.Fatalf("harness: %v", err)
+			}
+		}
+		if err := b.Commit(repo); err != nil {
+			tb.Fatalf("harness: %v", err)
+		}
+		want[tok] = string(b.Id())
+	}
+	rc, err := cache.NewRepoCacheNoEvents(repo) // no cache files yet: built from git
+	if err != nil {
+		tb.Fatalf("harness: cache: %v", err)
+	}
+	defer rc.Close()
+	rep.Case(fmt.Sprintf("build|n%d", c.N/25), c.N > 75, []string{fmt.Sprintf("bugs-at-build:%d..", (c.N/75)*75)}, c)
+	fail := func(sig, detail string) bool { return rep.Fail(tb, "C12/"+sig, detail, c) }
+	for tok, id := range want {
+		for _, text := range []string{tok, "status:open " + tok, tok + " sort:id"} {
+			q, err := query.Parse(text)
+			if err != nil {
+				tb.Fatalf("harness: %v", err)
+			}
+			got, err := rc.Bugs().Query(q)
+			if err != nil {
+				if fail("query-fails/"+Normalize(err.Error()), text+": "+err.Error()) {
+					return
+				}
+				continue
+			}
+			wantIds := []string{id}
+			if strings.HasPrefix(text, "status:open") {
+				if ex, err := rc.Bugs().ResolveExcerpt(entity.Id(id)); err == nil && ex.Status.String() != "open" {
+					wantIds = nil
+				}
+			}
+			var gotIds []string
+			for _, g := range got {
+				gotIds = append(gotIds, string(g))
+			}
+			if strings.Join(gotIds, ",") != strings.Join(wantIds, ",") {
+				if fail("search-misses-bugs-after-a-cache-build", fmt.Sprintf("%d bugs were in git when the cache was built; query %q returns %v, want %v", c.N, text, gotIds, wantIds)) {
+					return
+				}
+			}
+		}
+	}
+}
+
+func TestC12SearchAfterBuild(t *testing.T) {
+	Drive(t, "C12", genC12Build, runC12Build)
 }
